@@ -50,6 +50,13 @@ struct CRawWaker {
     vtable: &'static OpaqueRawWakerVtbl,
 }
 
+impl Drop for CRawWaker {
+    fn drop(&mut self) {
+        // Release the cloned waker exactly once - when the last shared reference is gone.
+        unsafe { (self.vtable.drop)(self.waker) }
+    }
+}
+
 impl CRawWaker {
     fn to_raw(this: BaseArc<CRawWaker>) -> RawWaker {
         unsafe fn clone(data: *const ()) -> RawWaker {
@@ -59,8 +66,10 @@ impl CRawWaker {
             CRawWaker::to_raw(waker)
         }
         unsafe fn wake(data: *const ()) {
+            // The underlying waker is shared by all clones, and is released when the last one
+            // goes away (see `Drop for CRawWaker`), thus wake it by reference here.
             let this = BaseArc::from_raw(data as *const CRawWaker);
-            (this.vtable.wake)(this.waker)
+            (this.vtable.wake_by_ref)(this.waker)
         }
         unsafe fn wake_by_ref(data: *const ()) {
             let data = data as *const CRawWaker;
@@ -68,8 +77,7 @@ impl CRawWaker {
             (this.vtable.wake_by_ref)(this.waker)
         }
         unsafe fn drop(data: *const ()) {
-            let this = BaseArc::from_raw(data as *const CRawWaker);
-            (this.vtable.drop)(this.waker)
+            let _ = BaseArc::from_raw(data as *const CRawWaker);
         }
 
         let vtbl = &RawWakerVTable::new(clone, wake, wake_by_ref, drop);
